@@ -902,7 +902,20 @@ func (g *G) c16EqualLen() [4]s2.Point {
 	perm, sg := r.Intn(6), r.Intn(8)
 	u := func() float64 { return r.Float()*2 - 1 }
 	var e [4]s2.Point
-	switch r.Intn(5) {
+	switch r.Intn(6) {
+	case 5: // an endpoint of b EXACTLY equidistant (in float64 too) from both endpoints of a: a1 = a0 with y and z exchanged,
+		// b0 on the mirror plane y == z; b1 on the other side of a (ties in every "closer endpoint" choice: seeded C16_4)
+		d := g.c17LogU(1e-12, 1)
+		x := u()
+		a0 := s2.PointFromCoords(x, 0.3+d, 0.3-d)
+		a1 := c17Raw(a0.X, a0.Z, a0.Y)
+		q := 0.3 * (1 + 0.5*u())
+		b0 := s2.PointFromCoords(x+g.c17LogU(1e-9, 0.5), q, q)
+		b1 := s2.PointFromCoords(x-g.c17LogU(1e-9, 0.5), q*(1+0.3*u()), q*(1+0.3*u()))
+		if r.Bool() {
+			b1 = s2.PointFromCoords(x-g.c17LogU(1e-9, 0.5), q, q)
+		}
+		e = [4]s2.Point{a0, a1, b0, b1}
 	case 0: // reflection in z == 0; a crosses that plane
 		h0, h1 := g.c17LogU(1e-15, 1), g.c17LogU(1e-15, 1)
 		if r.Intn(3) == 0 {
